@@ -341,6 +341,31 @@ func ruleC08Gates(r *Run, p *Program, rule string) {
 		r.bad(rule, construct, p.Pos(instrPos(ret)), "the segment iterator can return an error ("+valString(ev)+") that is neither a sentinel recovery compares against nor the pass-through of io.ReadFull: recovery cannot recognise it as a damaged tail and the recovering Open fails on every restart")
 	}
 	r.universe(rule+":error-returns", nerr, 3)
+	// a valid record is never rejected on its header alone: the "truncated" verdict is reachable only through the comparison
+	// with the file size, the "corrupted" verdict only through the checksum mismatch
+	for _, ret := range returnsOf(f) {
+		if len(ret.Results) != 2 {
+			continue
+		}
+		switch globalLoad(strip(retOperand(ret, 1))) {
+		case "io.ErrUnexpectedEOF":
+			okv := controlledBy(f, ret, func(c *Cond) bool {
+				switch c.Op {
+				case token.GTR, token.LSS, token.GEQ, token.LEQ:
+					return hasFieldLoad(c.X, "pogreb.file.size") || hasFieldLoad(c.Y, "pogreb.file.size")
+				}
+				return false
+			})
+			r.check(okv, rule, funcKey(f)+":truncated-only-by-size", p.Pos(instrPos(ret)), "a record is declared truncated only by comparing its claimed end with the file size", "the segment iterator can declare a record truncated for a reason other than 'its claimed end lies beyond the file size' (e.g. on a header pattern such as zero lengths): a valid record - an empty key with an empty value has an all-zero header - ends the replay of the segment and everything after it is cut off")
+		case "pogreb.errCorrupted":
+			okv := controlledBy(f, ret, func(c *Cond) bool {
+				cc := *c
+				cc.Pos = !c.Pos
+				return crcOK(&cc)
+			})
+			r.check(okv, rule, funcKey(f)+":corrupted-only-by-crc", p.Pos(instrPos(ret)), "a record is declared corrupted only when the stored and the computed checksum differ", "the segment iterator can declare a record corrupted without a checksum mismatch (e.g. on a header pattern): valid records are rejected and the rest of the segment is cut off by recovery")
+		}
+	}
 	// after a truncation the iterator goes on with the next segment
 	if trunc != nil {
 		if ts, ok := truncSite.(*ssa.Call); ok {
@@ -746,4 +771,17 @@ func ruleC18Gob(r *Run, p *Program, rule string) {
 			}
 		}
 	}
+}
+
+func hasFieldLoad(v ssa.Value, qual string) bool {
+	if v == nil {
+		return false
+	}
+	switch x := v.(type) {
+	case *ssa.BinOp:
+		return hasFieldLoad(x.X, qual) || hasFieldLoad(x.Y, qual)
+	case *ssa.Convert:
+		return hasFieldLoad(x.X, qual)
+	}
+	return isFieldLoad(v, qual)
 }
